@@ -4,6 +4,8 @@ import (
 	"bytes"
 	"encoding/binary"
 	"fmt"
+	"github.com/jcmturner/gofork/encoding/asn1"
+	"github.com/jcmturner/gokrb5/v8/asn1tools"
 	"io"
 	"net"
 	"strings"
@@ -50,7 +52,28 @@ type fakeKDC struct {
 	stop   chan struct{}
 }
 
+// krbErrorWire mirrors KRB-ERROR (RFC 4120 5.9.1) with the OPTIONAL ctime, cusec, crealm and cname left out, as KDCs send
+// it for errors without a client timestamp (response-too-big, the first pre-authentication demand): encoded here, not by
+// the library's own KRBError type.
+type krbErrorWire struct {
+	PVNO      int                 `asn1:"explicit,tag:0"`
+	MsgType   int                 `asn1:"explicit,tag:1"`
+	STime     time.Time           `asn1:"generalized,explicit,tag:4"`
+	Susec     int                 `asn1:"explicit,tag:5"`
+	ErrorCode int32               `asn1:"explicit,tag:6"`
+	Realm     string              `asn1:"generalstring,explicit,tag:9"`
+	SName     types.PrincipalName `asn1:"explicit,tag:10"`
+	EText     string              `asn1:"generalstring,optional,explicit,tag:11"`
+}
+
 func krbErrBytes(code int) []byte {
+	if code == 24 || code == 52 {
+		b, err := asn1.Marshal(krbErrorWire{PVNO: 5, MsgType: 30, STime: time.Now().UTC().Truncate(time.Second), Susec: 17, ErrorCode: int32(code), Realm: "TEST.GOKRB5",
+			SName: types.PrincipalName{NameType: 2, NameString: []string{"krbtgt", "TEST.GOKRB5"}}, EText: "simulated"})
+		if err == nil {
+			return asn1tools.AddASNAppTag(b, 30)
+		}
+	}
 	e := messages.NewKRBError(types.PrincipalName{NameType: 2, NameString: []string{"krbtgt", "TEST.GOKRB5"}}, "TEST.GOKRB5", int32(code), "simulated")
 	if code == 6 {
 		e.EData = bytes.Repeat([]byte{0x5a}, 2000) // errors can be large too (e-data): 2 KB fits a UDP reply
